@@ -13,6 +13,8 @@ use smoltcp::socket::{dns, icmp, raw, tcp, udp};
 use smoltcp::wire::{DnsQueryType, IpListenEndpoint, IpProtocol, IpVersion};
 
 const V_MAC: [u8; 6] = [2, 0, 0, 0, 0, 1];
+const V_MAC_2: [u8; 6] = [2, 0, 0, 0, 0, 0x77];
+const V_LL8_2: [u8; 8] = [2, 0, 0, 0, 0, 0, 0, 0x77];
 const P_MAC: [u8; 6] = [2, 0, 0, 0, 0, 2];
 const V_LL8: [u8; 8] = [2, 0, 0, 0, 0, 0, 0, 1];
 const P_LL8: [u8; 8] = [2, 0, 0, 0, 0, 0, 0, 2];
@@ -96,6 +98,9 @@ struct Inj<'a> {
     bound_listener: Option<(SocketHandle, IpAddr)>,
     /// forced upcoming TCP injections, last first: (destination class, flags, sequence number)
     script: Vec<(DstClass, u8, u32)>,
+    /// the application gave the interface another hardware address mid-run (`set_hardware_addr`): frames for the
+    /// old one are then frames for another station
+    hw_changed: bool,
 }
 
 fn a6(b0: u8, b1: u8, last2: [u8; 2]) -> [u8; 16] {
@@ -219,7 +224,9 @@ impl<'a> Inj<'a> {
             Medium::Ip => ip,
             Medium::Ethernet => {
                 let dst = match l2 {
+                    L2Class::Own if self.hw_changed => V_MAC_2,
                     L2Class::Own => V_MAC,
+                    L2Class::OtherUnicast if self.hw_changed => V_MAC,
                     L2Class::OtherUnicast => [2, 0, 0, 0, 0, 0x55],
                     L2Class::Broadcast => [0xff; 6],
                     _ => [0x33, 0x33, 0, 0, 0, 1],
@@ -229,12 +236,14 @@ impl<'a> Inj<'a> {
             }
             Medium::Ieee802154 => {
                 let (pan, dst) = match l2 {
+                    L2Class::Own if self.hw_changed => (PAN, Addr154::Ext(V_LL8_2)),
                     L2Class::Own => (PAN, Addr154::Ext(V_LL8)),
+                    L2Class::OtherUnicast if self.hw_changed => (PAN, Addr154::Ext(V_LL8)),
                     L2Class::OtherUnicast => (PAN, Addr154::Ext([2, 0, 0, 0, 0, 0, 0, 0x55])),
                     L2Class::Broadcast | L2Class::Multicast => (PAN, Addr154::Short([0xff, 0xff])),
-                    L2Class::OtherPan => (0x1234, Addr154::Ext(V_LL8)),
+                    L2Class::OtherPan => (0x1234, Addr154::Ext(if self.hw_changed { V_LL8_2 } else { V_LL8 })),
                     L2Class::OtherPanBroadcast => (0x1234, Addr154::Short([0xff, 0xff])),
-                    L2Class::BroadcastPan => (0xffff, Addr154::Ext(V_LL8)),
+                    L2Class::BroadcastPan => (0xffff, Addr154::Ext(if self.hw_changed { V_LL8_2 } else { V_LL8 })),
                 };
                 self.seq154 = self.seq154.wrapping_add(1);
                 let src = Addr154::Ext(P_LL8);
@@ -332,7 +341,7 @@ pub fn run(tape: &mut Tape, props: Props, thorough: bool, trace_on: bool) -> Out
         let _ = node.iface.join_multicast_group(smoltcp::wire::Ipv6Address::new(0xff02, 0, 0, 0, 0, 0, 0, 0x42));
     }
     let desc = format!("injector medium={:?} two-ipv4-subnets={} listeners={} udp={} raw={} joined4={} joined6={}", medium, two_v4, with_listeners, with_udp, has_raw, joined4, joined6);
-    let mut c = Inj { tape, props, node, view, medium, now: 1_000_000, stats: Stats::default(), hash: LogHash::new(), trace: vec![], trace_on, events: 0, socks, v4, v6: v6addr, joined4, joined6, has_raw, seq154: 0, two_v4, bound_listener, script: vec![] };
+    let mut c = Inj { tape, props, node, view, medium, now: 1_000_000, stats: Stats::default(), hash: LogHash::new(), trace: vec![], trace_on, events: 0, socks, v4, v6: v6addr, joined4, joined6, has_raw, seq154: 0, two_v4, bound_listener, script: vec![], hw_changed: false };
     let r = body(&mut c, thorough);
     let nontrivial = c.stats.get("inj.packets") >= 5 && c.stats.get("inj.not-for-us") >= 1;
     c.stats.add("sim.seconds", (c.now / 1_000_000) as u64);
@@ -372,6 +381,13 @@ fn body(c: &mut Inj, thorough: bool) -> Result<(), Violation> {
         if c.script.is_empty() && c.bound_listener.is_some() && c.v4.is_some() && c.tape.draw(20) == 19 {
             c.script = vec![(DstClass::Own2, F_SYN, 1000), (DstClass::Own, F_RST, 1001), (DstClass::Own, F_SYN, 1000)];
             c.stats.inc("inj.scripted-aborted-handshake");
+        }
+        if !c.hw_changed && c.medium != Medium::Ip && c.script.is_empty() && c.tape.draw(40) == 0 {
+            let hw = if c.medium == Medium::Ethernet { smoltcp::wire::HardwareAddress::Ethernet(smoltcp::wire::EthernetAddress(V_MAC_2)) } else { smoltcp::wire::HardwareAddress::Ieee802154(smoltcp::wire::Ieee802154Address::Extended(V_LL8_2)) };
+            let iface = &mut c.node.iface;
+            guard("Interface::set_hardware_addr", || iface.set_hardware_addr(hw))?;
+            c.hw_changed = true;
+            c.stats.inc("inj.hardware-address-changed");
         }
         let forced = c.script.pop();
         let v6 = !c.two_v4 && (c.v4.is_none() || c.tape.draw(2) == 1) && forced.is_none();
